@@ -1,6 +1,8 @@
 package checks
 
 import (
+	"strings"
+	"sort"
 	"fmt"
 
 	"github.com/akalin/gopar/par2"
@@ -46,6 +48,9 @@ func (c *c05) Cases(tier string, seed int64) []core.Case {
 		cs = append(cs, core.MkCase(fmt.Sprintf("many-slices-%d", i), c05Params{r.Int63()&^(0xffff<<8) | int64(i)<<8, "many-slices"}))
 	}
 	cs = append(cs, core.MkCase("near-16k", c05Params{r.Int63(), "near-16k"}))
+	for i := 0; i < map[string]int{"quick": 6, "thorough": 60}[tier]; i++ {
+		cs = append(cs, core.MkCase(fmt.Sprintf("obstacle-%d", i), c05Params{r.Int63(), "obstacle"}))
+	}
 	for i := 0; i < map[string]int{"quick": 3, "thorough": 30}[tier]; i++ {
 		cs = append(cs, core.MkCase(fmt.Sprintf("many-slices-and-blocks-%d", i), c05Params{r.Int63(), "many-both"}))
 	}
@@ -101,6 +106,9 @@ func (c *c05) Run(cs core.Case) core.Result {
 			n := total*slice/nf - rng.Intn(slice)
 			set.Files = append(set.Files, scen.File{Name: scen.GenName(rng, i, true, true), Data: scen.GenData(rng, "random", n, slice)})
 		}
+	case "obstacle":
+		set = genP2Set(rng, 4, []string{"random"}, false)
+		set.Blocks = 2 + rng.Intn(9)
 	case "near-16k":
 		set = scen.Set{SliceSize: 2000, Blocks: 2, Content: "random"}
 		for i, n := range []int{16383, 16384, 16385, 16380, 32768} {
@@ -133,6 +141,59 @@ func (c *c05) Run(cs core.Case) core.Result {
 			preSnap = scen.Snapshot(dir)
 		}
 	}
+	// Every seventh case lists some inputs more than once, under other
+	// spellings of the same path: the set is still the set of distinct files.
+	p2CreatePaths = nil
+	repeated := false
+	if p.Seed%7 == 3 && p.Kind != "obstacle" {
+		p2CreatePaths = func(dir string, paths []string) []string {
+			out := append([]string(nil), paths...)
+			for k := 0; k < 1+rng.Intn(2); k++ {
+				src := paths[rng.Intn(len(paths))]
+				rel, _ := filepath.Rel(dir, src)
+				alt := []string{src, dir + "/./" + rel, dir + "//" + rel, filepath.Dir(src) + "/../" + filepath.Base(filepath.Dir(src)) + "/" + filepath.Base(src)}[rng.Intn(4)]
+				at := rng.Intn(len(out) + 1)
+				out = append(out[:at], append([]string{alt}, out[at:]...)...)
+			}
+			r.Count("sets_with_repeated_inputs", 1)
+			repeated = true
+			return out
+		}
+	}
+	// An obstacle: a directory sits where one of the recovery files has to go.
+	obstacle := ""
+	if p.Kind == "obstacle" {
+		prev := p2PreCreate
+		p2PreCreate = func(dir, idx string, paths []string) {
+			if prev != nil {
+				prev(dir, idx, paths)
+			}
+			before := scen.Snapshot(dir)
+			if par2.Create(idx, paths, par2.CreateOptions{SliceByteCount: set.SliceSize, NumParityShards: set.Blocks, NumGoroutines: 1}) != nil {
+				return
+			}
+			var made []string
+			for name := range scen.Snapshot(dir) {
+				if _, ok := before[name]; !ok {
+					made = append(made, name)
+				}
+			}
+			sort.Strings(made)
+			for _, name := range made {
+				os.Remove(filepath.Join(dir, name))
+			}
+			var volNames []string
+			for _, name := range made {
+				if strings.Contains(name, ".vol") {
+					volNames = append(volNames, name)
+				}
+			}
+			if len(volNames) > 0 {
+				obstacle = volNames[rng.Intn(len(volNames))]
+				os.MkdirAll(filepath.Join(dir, obstacle, "squatter"), 0755)
+			}
+		}
+	}
 	p2SymlinkInputs = p.Seed%5 == 2
 	outBase := "out"
 	if p.Seed%3 == 0 {
@@ -140,9 +201,36 @@ func (c *c05) Run(cs core.Case) core.Result {
 	}
 	env, err := newP2Env(set, outBase, g)
 	p2PreCreate = nil
+	p2CreatePaths = nil
 	p2SymlinkInputs = false
 	if env != nil {
 		defer env.close()
+	}
+	if repeated && err != nil && strings.HasPrefix(err.Error(), "Create: ") {
+		// refusing a list that names a file twice is fine (PAR1 does, too);
+		// accepting it obliges Create to write a conformant set of the
+		// distinct files, which the rest of this function validates
+		r.Count("create_refused_repeated_input", 1)
+		r.Key("repeated-input-refused|%s", p.Kind)
+		r.Sample(map[string]interface{}{"kind": p.Kind, "repeated_inputs": true, "outcome": fmt.Sprint(err)})
+		return r.Done()
+	}
+	if p.Kind == "obstacle" {
+		// Create cannot write that recovery file: it has to say so. (If it
+		// returned nil, newP2Env's postcondition reports the missing blocks.)
+		r.Key("obstacle|%s|b=%d", map[bool]string{true: "refused", false: "not-refused"}[err != nil], set.Blocks)
+		r.Sample(map[string]interface{}{"kind": p.Kind, "obstacle": obstacle, "blocks": set.Blocks, "outcome": fmt.Sprint(err)})
+		switch {
+		case obstacle == "":
+			r.Inconclusive("no recovery file name learnt")
+		case err == nil:
+			r.Violate("create-ok-despite-unwritable-recovery-file", "Create returned nil although %s is a directory", obstacle)
+		case !strings.HasPrefix(err.Error(), "Create: "):
+			r.Violate("create-failed", "%v (a directory sits at %s)", err, obstacle)
+		default:
+			r.Count("create_refused_obstacle", 1)
+		}
+		return r.Done()
 	}
 	if p.Kind == "over-limit" {
 		if err == nil {
